@@ -304,4 +304,47 @@ Example C16_dicts_nonvacuous :
   = Some 7%nat /\
   alookup "K" (match w_nprops (shift_wgraph (wgraph_final ex_tm false false)) with Some ps => ps | None => [] end)
   = Some (mkprop (PFixed (mkarr DI64 [7%nat] [3; 0; 0; 4; 0; -7; 0])) (Some (mkarr DBool [7%nat] [0; 1; 1; 0; 1; 0; 1]))).
+(* ---- appended (fx16): the premises decided fast; occupied target with overwrite=True ---- *)
+From Geff Require CrashLemmas OverwriteLemmas ConvOverwrite TrackMateFast TrackMateOverwrite.
+
+(* wf_tm /\ tracks_connected decided in |links| * |spots| steps: the harness evaluates premises_fast on EVERY generated document
+   (Corr/C16.v, IConvW) and compares it with what the generator meant (well-formed classes: true; each malformation that breaks
+   a clause of wf_tm / tracks_connected: false) *)
+Theorem C16_premises_decidable : forall d, TrackMateFast.premises_fast d = true -> wf_tm d /\ tracks_connected d.
+Proof. exact TrackMateFast.premises_fast_sound. Qed.
+Print Assumptions C16_premises_decidable.
+
+(* overwrite=True on a target that holds exactly a geff (any geff): the conversion succeeds and leaves the very tree that the
+   conversion onto a free target leaves, so it reads back as the same `back` -- every statement above that starts from
+   `converted d ds dt back x` therefore describes the result of overwriting too *)
+Theorem C16_overwrite : forall d ds dt a ch back x, wf_tm d -> ConvOverwrite.only_geff a ch -> converted d ds dt back x ->
+  exists tr post,
+    from_trackmate d ds dt true (init (Some (ZG a ch))) = (mkst (Some post) tr, Ok tt) /\
+    (exists tr', from_trackmate d ds dt false (init None) = (mkst (Some post) tr', Ok tt)) /\
+    validate_structure KPath (Some post) = Ok tt /\
+    read_to_memory KPath (Some post) true None None = Ok back.
+Proof. exact TrackMateOverwrite.c16_overwrite. Qed.
+Print Assumptions C16_overwrite.
+
+(* ... and when the directory holds other members beside the geff: the old geff is deleted and NxBackend.write ->
+   write_arrays(overwrite=False) refuses the directory that is left (path case of the open C06 finding; the harness assumes a target
+   that holds exactly a geff, so this statement is about the model only) *)
+Theorem C16_overwrite_beside : forall d ds dt a ch, wf_tm d -> ahas "geff" a = true ->
+  adel path_EDGES (adel path_NODES ch) <> [] ->
+  exists tr, from_trackmate d ds dt true (init (Some (ZG a ch)))
+             = (mkst (Some (ZG (adel "geff" a) (adel path_EDGES (adel path_NODES ch)))) tr, Err FileExistsError).
+Proof. exact TrackMateOverwrite.c16_overwrite_beside. Qed.
+Print Assumptions C16_overwrite_beside.
+
+(* non-vacuity: ex_tm converted with overwrite=True over the geff that the conversion of ex_none left *)
+Example C16_overwrite_nonvacuous :
+  TrackMateFast.premises_fast ex_tm = true /\ TrackMateFast.premises_fast ex_none = true /\
+  match run (from_trackmate ex_none false true false) None with
+  | (Some (ZG a ch), Ok _) =>
+      ahas "geff" a && (match adel path_EDGES (adel path_NODES ch) with [] => true | _ => false end) &&
+      otree_eqb (fst (run (from_trackmate ex_tm true false true) (Some (ZG a ch)))) (fst (run (from_trackmate ex_tm true false false) None)) &&
+      is_ok (snd (run (from_trackmate ex_tm true false true) (Some (ZG a ch)))) &&
+      negb (otree_eqb (fst (run (from_trackmate ex_tm true false false) None)) (Some (ZG a ch)))
+  | _ => false
+  end = true.
 Proof. vm_compute. repeat split. Qed.
